@@ -723,6 +723,8 @@ class Engine:
                 return [(st, VBound(v, attr))]
             s.raise_(st, "AttributeError", out, node)
             return []
+        if isinstance(v, VRef) and attr == "__class__":
+            return [(st, VType(z3.Select(s.heap(st, "$cls"), v.t)))]
         if isinstance(v, VRef):
             info = s.class_info(v.cls)
             # data field?
